@@ -34,7 +34,7 @@ Inductive pool_tree := PoolT (kind : N) (payload : list N) (children : list pool
 
 Definition pk_root : N := 0.      (* RootNode: children = the top-level nodes *)
 Definition pk_text : N := 1.      (* [k]        literal text  T<k>;                            TextNode *)
-Definition pk_var : N := 2.       (* [x]        {{ v<x> }}                                     PrintNode(VariableNode) *)
+Definition pk_var : N := 2.       (* [x; f]     {{ v<x> }} or, f <> 0, {{ v<x>|verifid }}      PrintNode(VariableNode / FilterNode) *)
 Definition pk_fail : N := 3.      (* []         {{ 1|verifboom }}  a filter that fails         PrintNode(FilterNode) *)
 Definition pk_include : N := 4.   (* [t; ign]   {% include 't<t>' [ignore missing] %}          IncludeNode *)
 Definition pk_block : N := 5.     (* [b]        {% block b<b> %} children {% endblock %}       BlockNode *)
@@ -484,8 +484,10 @@ Fixpoint pool_eval (fuel : nat) (rv : N -> pool_lres) (g : nat -> pool_garbage) 
         let '(this, gas1) :=
           if N.eqb k pk_text then ((PROut [PAText (pool_pl pl 0)], []), gas0)
           else if N.eqb k pk_var then
-            (* PrintNode -> GetVariable *)
-            if negb (pool_touch c [b#"context"; b#"env"; b#"parent"]) then ((PRGarbage, []), gas0)
+            (* PrintNode -> GetVariable
+            (through the identity filter verifid when the second payload is not 0: ApplyFilter reads the sandbox flag) *)
+            if negb (pool_touch c (if N.eqb (pool_pl pl 1) 0 then [b#"context"; b#"env"; b#"parent"]
+                                   else [b#"context"; b#"env"; b#"parent"; b#"sandboxed"])) then ((PRGarbage, []), gas0)
             else ((PROut (match pool_getvar c (pool_pl pl 0) with Some v => [PAVal v] | None => [] end), []), gas0)
           else if N.eqb k pk_fail then
             (* ApplyFilter: the sandbox test, then the filter, which fails *)
